@@ -169,6 +169,18 @@ func (d DSpec) Class() int {
 	return -1
 }
 
+// HugeExtent reports whether dims describe more than 2^26 elements (such extents are declared, never materialised).
+func HugeExtent(dims []uint64) bool {
+	n := uint64(1)
+	for _, x := range dims {
+		if x != 0 && n > (1<<26)/x {
+			return true
+		}
+		n *= x
+	}
+	return false
+}
+
 func NumElems(dims []uint64) int {
 	n := 1
 	for _, x := range dims {
@@ -295,12 +307,16 @@ var extremes64 = []uint64{0, 1, 0xFFFFFFFFFFFFFFFF, 0x8000000000000000, 0x7FFFFF
 const (
 	ModeMixed = 0
 	ModeSeq   = 1
+	ModeZero  = 2 // every byte zero (a caller clearing a dataset)
 )
 
 // rawBits returns the little-endian bit pattern (as uint64, truncated to size) of element i.
 func rawBits(seed, i, size, mode int) uint64 {
 	if mode == ModeSeq {
 		return uint64(seed%97) + uint64(i) + 1
+	}
+	if mode == ModeZero {
+		return 0
 	}
 	r := mix(seed, i)
 	if r%5 == 0 {
@@ -412,6 +428,8 @@ func (d DSpec) Data(dims []uint64, seed, mode int) (raw []byte, goVal any) {
 			l := int(r % uint64(d.StrSize+3)) // 0 .. size+2: shorter, exact and longer than the field
 			if mode == ModeSeq {
 				strs[i] = fmt.Sprintf("s%d", i)
+			} else if mode == ModeZero {
+				strs[i] = ""
 			} else {
 				s := ""
 				for k := 0; len(s) < l; k++ {
